@@ -335,7 +335,7 @@ func verifBodyHistory(s *verifEngC, gc *check.C) {
 	installed := c.Draw("initially-installed", 4) != 3
 	st.Lock()
 	if installed {
-		nk := 1 + c.Draw("initial-kept", 3)
+		nk := 1 + c.Draw("initial-kept", 4)
 		var sis []*snap.SideInfo
 		initial.mounted[verifSnapName] = map[int]bool{}
 		for i := 0; i < nk; i++ {
@@ -377,7 +377,13 @@ func verifBodyHistory(s *verifEngC, gc *check.C) {
 		desc := ""
 		kind := ""
 		target := 0
-		op := c.Draw("op", 9)
+		op := c.Draw("op", 11)
+		switch op {
+		case 9:
+			op = 2 // refreshes to kept revisions and explicit reverts carry the subtle undo paths
+		case 10:
+			op = 4
+		}
 		switch {
 		case !have:
 			target = nextRev
@@ -497,11 +503,15 @@ func verifBodyHistory(s *verifEngC, gc *check.C) {
 		s.fakeBackend.copySnapDataFailTrigger = ""
 		delete(s.fakeStore.downloadError, verifSnapName)
 		faulted := false
-		if faultsOn && (kind == "install" || kind == "refresh" || kind == "revert") && c.Draw("fail-this-op", 3) == 2 {
+		if faultsOn && (kind == "install" || kind == "refresh" || kind == "revert") && c.Draw("fail-this-op", 5) >= 3 {
 			faulted = true
 			switch c.Draw("fault-kind", 6) {
 			case 0, 1, 2:
-				s.failNth = c.Draw("fail-at-handler", nTasks)
+				// any task of the change; the later half twice as likely (undo after link-snap)
+				s.failNth = c.Draw("fail-at-handler", nTasks+nTasks/2)
+				if s.failNth >= nTasks {
+					s.failNth = nTasks/2 + (s.failNth - nTasks)
+				}
 			case 3:
 				abortChg = chg
 			case 4:
